@@ -18,6 +18,12 @@ extern "C" bool stub_hasUBound(LRAModel const *, LVRef v) { return hasU[v.x]; }
 extern "C" Delta const * stub_Lb(LRAModel const *, LVRef v) { return lbs[v.x]; }
 extern "C" Delta const * stub_Ub(LRAModel const *, LVRef v) { return ubs[v.x]; }
 extern "C" bool stub_isQuasiBasic(Tableau const *, LVRef) { return false; }
+// basic / non-basic status of a variable: arbitrary but fixed per variable (a change of the code under test may start to consult it;
+// the value chosen for a variable must respect its bounds whatever its tableau status)
+static bool tab_status_set[4], tab_nonbasic[4];
+static bool tab_is_nonbasic(LVRef v) { unsigned i = v.x & 3; if (!tab_status_set[i]) { tab_nonbasic[i] = nondet_bool(); tab_status_set[i] = true; } return tab_nonbasic[i]; }
+extern "C" bool stub_isNonBasic(Tableau const *, LVRef v) { return tab_is_nonbasic(v); }
+extern "C" bool stub_isBasic(Tableau const *, LVRef v) { return !tab_is_nonbasic(v); }
 
 static int32_t small(int lo, int hi) { int32_t v = (int8_t)nondet_u8(); VASSUME(v >= lo && v <= hi); return v; }
 // x * y for |x| small and 0 <= y <= 7 without a multiplier circuit
